@@ -284,7 +284,7 @@ func runECase(ec ECase) (*Fail, []string, map[string]int, error) {
 				}
 				for _, r := range vs.Replicas {
 					if revs[r.Address] < maxRev && r.Mode == types.RW {
-						return fail("election|stale-replica-readable", fmt.Sprintf("%s has revision %d < %d but is RW after start: %v", r.Address, revs[r.Address], maxRev, vs.Replicas), "C09"), trace, labels, nil
+						return fail("election|stale-replica-readable", fmt.Sprintf("%s has revision %d < %d but is RW after start: %v", r.Address, revs[r.Address], maxRev, vs.Replicas), "C09", "C04"), trace, labels, nil
 					}
 				}
 				if len(addrs) > 1 {
@@ -508,6 +508,10 @@ func runElectionProperty(t *testing.T, prop, test string) {
 
 // TestC09 — bootstrap elects the most up-to-date replica after a majority registered.
 func TestC09(t *testing.T) { runElectionProperty(t, "C09", "TestC09") }
+
+// TestC04Bootstrap — after a (multi-address) start only replicas with the highest
+// revision count are RW and serve reads.
+func TestC04Bootstrap(t *testing.T) { runElectionProperty(t, "C04", "TestC04Bootstrap") }
 
 // TestC18Bootstrap — the membership bookkeeping stays consistent through
 // registrations, failed and multi-address starts and a second bootstrap.
